@@ -88,6 +88,7 @@ func main() {
 			if err != nil {
 				panic(err)
 			}
+			fmt.Fprintf(os.Stderr, "STARTING %d %s\n", i, raw)
 			c := fam.Exec(i, raw)
 			c.Family = os.Args[1]
 			c.Input = raw
@@ -124,7 +125,23 @@ func main() {
 
 // ---- Gallina emitters ------------------------------------------------------------------
 
-func cqStr(s string) string { return `"` + strings.ReplaceAll(s, `"`, `""`) + `"` }
+func cqStr(s string) string {
+	plain := true
+	for i := 0; i < len(s); i++ {
+		if s[i] < 0x20 || s[i] > 0x7e {
+			plain = false
+			break
+		}
+	}
+	if plain {
+		return `"` + strings.ReplaceAll(s, `"`, `""`) + `"`
+	}
+	bs := make([]string, len(s))
+	for i := 0; i < len(s); i++ {
+		bs[i] = fmt.Sprintf("%d%%N", s[i])
+	}
+	return "(bytes_str [" + strings.Join(bs, "; ") + "])"
+}
 func cqList(xs []string) string {
 	return "[" + strings.Join(xs, "; ") + "]"
 }
